@@ -36,12 +36,20 @@ LEAN = dict(
         "`dropDupKeys`, `joinOn`); their agreement with pandas is established only by this differential check",
     ],
     assumptions=[
-        "parameters, individual parameters and ages are generated float32-representable, so both sides start from identical numbers",
+        "parameters and individual parameters are generated float32-representable, so both sides start from identical numbers; ages "
+        "with more digits are rounded to float32 by the implementation, and the reference / the Lean model are fed these roundings",
+        "shared-speed models with an early feature (g e^-delta < 1/20, outside the range of the stored models): the code forms "
+        "1 + g e^-delta and 1 - 1/(1 + g e^-delta) in float32, the space shift is then accurate to eps32 / (g e^-delta) only; the "
+        "envelope carries the extra term 16*eps32*(1/min_k(g e^-delta_k) - 20)*sum|sources|*sum|betas| (nothing inside the old range)",
         "envelope: |impl - model| <= s'(logit) * (16*eps32*(|m*v0*rt|+|m*w|+|log g|) + m*dw) + 4*eps32*|y| + 1e-37 "
         "(logistic / shared speed; typically < 2e-6 absolute), linear: 16*eps32*(|g|+|v0*rt|+|w|) + dw; "
         "dw = 64*eps32*sum|sources|*sum|betas| (Householder + two matmuls in float32); eps32 = 2^-24",
         "monotonicity on the implementation's floats is asserted up to 4 float32 ulps",
-        "model.estimate() is modelled as repaired by fix F17 / F18 (fixes/F17.patch, fixes/F18.patch)",
+        "model.estimate() is modelled as repaired by fix F17 / F18 (fixes/F17.patch, fixes/F18.patch) and F93 (categorical identifiers "
+        "with a category that is not requested; open finding, fixes/F93.patch)",
+        "not generated: a process whose torch default dtype is float64 (loading / evaluating a model then fails with a dtype "
+        "mismatch in the matmul of the space shifts; leaspy computes in float32 and documents nothing else), pickled models "
+        "(not picklable), mixture / joint models (not among the property's three curves)",
     ],
 )
 
@@ -82,27 +90,49 @@ def f32(x):
 
 # ----------------------------------------------------------------------------------------------
 # model construction
-def random_settings(rng, kind, d, ns):
+def random_settings(rng, kind, d, ns, wide=False):
+    """`wide`: the edge of what the documentation allows instead of the range of the stored models — asymptote offsets g from
+    e^-5 to e^7, velocities over four decades, linear scores in arbitrary units (0..30, thousands), space-shift loadings of
+    order 1, a time axis in years since baseline (tau_mean around 0, negative onsets) or in months, a binary observation model."""
     P = {}
-    if kind == "logistic":
-        P["log_g_mean"] = [f32(rng.uniform(-1.5, 3.5)) for _ in range(d)]
-        P["log_v0_mean"] = [f32(rng.uniform(-6, -1.5)) for _ in range(d)]
-    elif kind == "linear":
-        P["g_mean"] = [f32(rng.uniform(-0.5, 1.5)) for _ in range(d)]
-        P["log_v0_mean"] = [f32(rng.uniform(-6, -1.5)) for _ in range(d)]
+    if wide:
+        lg = lambda: f32(rng.uniform(-5, 7))          # noqa: E731
+        lv = lambda: f32(rng.uniform(-9, 0.5))        # noqa: E731
+        unit = rng.choice([1.0, 1.0, 30.0, 1000.0, 0.01])
+        gl = lambda: f32(unit * rng.uniform(-0.5, 1.5))   # noqa: E731
+        dl = lambda: f32(rng.uniform(-4, 4))          # noqa: E731
+        bl = lambda: f32(rng.choice([0.3, 1.5]) * rng.uniform(-1, 1))   # noqa: E731
+        tau_mean = rng.choice([rng.uniform(-5, 5), 0.0, rng.uniform(55, 85), rng.uniform(200, 900)])
+        xi_mean = rng.uniform(-7, 1)
     else:
-        P["log_g_mean"] = [f32(rng.uniform(-1.5, 3.5))]
-        P["deltas_mean"] = [f32(rng.uniform(-1.5, 1.5)) for _ in range(d - 1)]
-        P["xi_mean"] = [f32(rng.uniform(-4, -1))]
+        lg = lambda: f32(rng.uniform(-1.5, 3.5))      # noqa: E731
+        lv = lambda: f32(rng.uniform(-6, -1.5))       # noqa: E731
+        gl = lambda: f32(rng.uniform(-0.5, 1.5))      # noqa: E731
+        dl = lambda: f32(rng.uniform(-1.5, 1.5))      # noqa: E731
+        bl = lambda: f32(rng.uniform(-0.3, 0.3))      # noqa: E731
+        tau_mean = xi_mean = None
+    if kind == "logistic":
+        P["log_g_mean"] = [lg() for _ in range(d)]
+        P["log_v0_mean"] = [lv() for _ in range(d)]
+    elif kind == "linear":
+        P["g_mean"] = [gl() for _ in range(d)]
+        P["log_v0_mean"] = [lv() for _ in range(d)]
+    else:
+        P["log_g_mean"] = [lg()]
+        P["deltas_mean"] = [dl() for _ in range(d - 1)]
+        P["xi_mean"] = [f32(rng.uniform(-4, -1) if xi_mean is None else xi_mean)]
     if ns > 0:
-        P["betas_mean"] = [[f32(rng.uniform(-0.3, 0.3)) for _ in range(ns)] for _ in range(d - 1)]
-    P["tau_mean"] = [f32(rng.uniform(55, 85))]
+        P["betas_mean"] = [[bl() for _ in range(ns)] for _ in range(d - 1)]
+    P["tau_mean"] = [f32(rng.uniform(55, 85) if tau_mean is None else tau_mean)]
     P["tau_std"] = [f32(rng.uniform(3, 10))]
     P["xi_std"] = [f32(rng.uniform(.2, 1))]
-    P["noise_std"] = [f32(rng.uniform(.02, .2)) for _ in range(d)] if d > 1 else f32(0.1)
+    obs = "gaussian-diagonal" if d > 1 else "gaussian-scalar"
+    if wide and kind != "linear" and rng.random() < 0.3:
+        obs = "bernoulli"      # no noise parameter; the curve is the same
+    else:
+        P["noise_std"] = [f32(rng.uniform(.02, .2)) for _ in range(d)] if d > 1 else f32(0.1)
     return {"leaspy_version": "2.0.0-dev", "name": kind, "features": [f"Y{k}" for k in range(d)], "dimension": d,
-            "obs_models": {"y": "gaussian-diagonal" if d > 1 else "gaussian-scalar"}, "parameters": P,
-            "source_dimension": ns}
+            "obs_models": {"y": obs}, "parameters": P, "source_dimension": ns}
 
 
 def pop_of_model(model):
@@ -128,19 +158,38 @@ def pop_of_model(model):
     return pop
 
 
-def random_ip(rng, pop, zero_sources=False):
+def random_ip(rng, pop, zero_sources=False, tau_centre=None, wide=False):
     # mostly ordinary progressors, sometimes a very fast or very slow one (several prior standard deviations out): legitimate
     r = rng.random()
     xi = rng.uniform(-1.5, 1.5) if r < 0.7 else (rng.uniform(1.5, 4.5) if r < 0.85 else rng.uniform(-4.5, -1.5))
-    ip = {"xi": f32(xi), "tau": f32(rng.uniform(40, 100))}
+    if tau_centre is None:
+        tau = rng.uniform(40, 100)
+    else:
+        # the time axis of this model (years since baseline, months, …): onset anywhere within +-30 units of its mean
+        tau = tau_centre + rng.uniform(-30, 30)
+    if wide and rng.random() < 0.15:
+        xi = 0.0
+    if wide and rng.random() < 0.15:
+        tau = float(round(tau))          # an integral onset (may be handed over as a python int)
+    ip = {"xi": f32(xi), "tau": f32(tau)}
     if pop["ns"] > 0:
-        ip["sources"] = [0.0 if zero_sources else f32(rng.uniform(-2, 2)) for _ in range(pop["ns"])]
+        span = 6.0 if (wide and rng.random() < 0.25) else 2.0     # sources are N(0,1): a 6-sigma individual is a far-tail draw
+        ip["sources"] = [0.0 if zero_sources else f32(rng.uniform(-span, span)) for _ in range(pop["ns"])]
+        if wide and not zero_sources and rng.random() < 0.1:
+            ip["sources"][rng.randrange(pop["ns"])] = 0.0
     return ip
 
 
-def random_ages(rng, tau):
-    """unsorted / repeated / single / far extrapolation; all exactly representable in float32."""
-    style = rng.choice(["single", "sorted", "unsorted", "repeated", "far", "mixed", "at_tau"])
+def random_ages(rng, tau, more=False, force=None):
+    """unsorted / repeated / single / far extrapolation; all exactly representable in float32 — except, with `more`, the style
+    "fine" (arbitrary doubles: the implementation works on their float32 roundings, and so does the reference), "integral"
+    (whole numbers, handed over as python / numpy integers too) and "long" (dozens of ages: other vectorised kernels)."""
+    styles = ["single", "sorted", "unsorted", "repeated", "far", "mixed", "at_tau"]
+    if more:
+        styles += ["fine", "fine", "integral", "long"]
+    style = rng.choice(styles)
+    if force is not None:
+        style = force
     def near():
         return round((tau + rng.uniform(-30, 30)) * 16) / 16
     if style == "single":
@@ -157,20 +206,109 @@ def random_ages(rng, tau):
         rng.shuffle(ages)
     elif style == "at_tau":
         ages = [f32(tau), near(), f32(tau)]
+    elif style == "fine":
+        # ages with many decimals (a date difference in years): neither multiples of 1/16 nor float32 numbers
+        ages = [tau + rng.uniform(-30, 30) for _ in range(rng.randrange(1, 6))]
+        ages += [rng.choice(ages) + rng.choice([1e-4, 1e-3, 0.01])]
+        rng.shuffle(ages)
+        return [float(a) for a in ages], style
+    elif style == "integral":
+        ages = [float(round(tau + rng.uniform(-30, 30))) for _ in range(rng.randrange(1, 7))]
+    elif style == "long":
+        ages = [near() for _ in range(rng.choice([17, 33, 64]))]
     else:
         ages = [near() for _ in range(rng.randrange(1, 5))] + [270.0, -130.0, f32(tau)]
         ages += [rng.choice(ages)]
         rng.shuffle(ages)
-    if rng.random() < 0.2:
+    if rng.random() < 0.2 and style != "integral":
         # "time since baseline" cohorts: the age 0 itself (and small negative ages) are ordinary requests
         ages = ages + [0.0] + ([-1.5] if rng.random() < 0.5 else [])
         rng.shuffle(ages)
     return [f32(a) for a in ages], style
 
 
+# containers / dtypes the API documents for ages ("scalar or array_like (list, tuple, numpy.ndarray)") and for the values of
+# an individual-parameter dict ("a scalar or array_like"); what estimate() itself hands over is a float64 numpy array
+AGE_CONTAINERS_F64 = ["list", "tuple", "np64", "series", "torch64"]
+AGE_CONTAINERS_F32 = ["np32", "torch32"]
+IP_STYLES = ["float", "numpy-scalars", "one-element-lists", "numpy-arrays", "torch", "tuple-int"]
+
+
+def is_f32(x):
+    return f32(x) == float(x)
+
+
+def pick_age_container(rng, ages):
+    opts = list(AGE_CONTAINERS_F64)
+    if all(is_f32(a) for a in ages):
+        opts += AGE_CONTAINERS_F32
+    if ages and all(float(a).is_integer() for a in ages):
+        opts += ["int-list", "np-int64"]
+    return rng.choice(opts)
+
+
+def dress_ages(env, ages, container):
+    np, pd, torch = env["np"], env["pd"], env["torch"]
+    ages = [float(a) for a in ages]
+    if container in (None, "list"):
+        return list(ages)
+    if container == "tuple":
+        return tuple(ages)
+    if container == "np64":
+        return np.array(ages, dtype=np.float64)
+    if container == "np32":
+        return np.array(ages, dtype=np.float32)
+    if container == "series":
+        return pd.Series(ages, dtype=float)
+    if container == "torch64":
+        return torch.tensor(ages, dtype=torch.float64)
+    if container == "torch32":
+        return torch.tensor(ages, dtype=torch.float32)
+    if container == "int-list":
+        return [int(a) for a in ages]
+    if container == "np-int64":
+        return np.array([int(a) for a in ages], dtype=np.int64)
+    raise ValueError(container)
+
+
+def dress_ip(env, ip, style):
+    """The same individual (values are float32 numbers, hence identical in every dtype) in another accepted representation."""
+    np, torch = env["np"], env["torch"]
+    src = ip.get("sources")
+    if style in (None, "float"):
+        out = {"xi": ip["xi"], "tau": ip["tau"]}
+        if src is not None:
+            out["sources"] = list(src)
+    elif style == "numpy-scalars":
+        out = {"xi": np.float64(ip["xi"]), "tau": np.float32(ip["tau"])}
+        if src is not None:
+            out["sources"] = np.array(src, dtype=np.float64)
+    elif style == "one-element-lists":
+        out = {"xi": [ip["xi"]], "tau": [ip["tau"]]}
+        if src is not None:
+            out["sources"] = [list(src)]
+    elif style == "numpy-arrays":
+        out = {"xi": np.array([ip["xi"]]), "tau": np.array([ip["tau"]], dtype=np.float32)}
+        if src is not None:
+            out["sources"] = np.array([src], dtype=np.float32)
+    elif style == "torch":
+        out = {"xi": torch.tensor(ip["xi"], dtype=torch.float64), "tau": torch.tensor([ip["tau"]], dtype=torch.float32)}
+        if src is not None:
+            out["sources"] = torch.tensor(src, dtype=torch.float64)
+    elif style == "tuple-int":
+        tau = ip["tau"]
+        out = {"xi": ip["xi"], "tau": int(tau) if float(tau).is_integer() else tau}
+        if src is not None:
+            out["sources"] = tuple(int(x) if float(x).is_integer() and x != 0 else x for x in src)
+    else:
+        raise ValueError(style)
+    return out
+
+
 # ----------------------------------------------------------------------------------------------
 # the documented closed form, in float64 python (independent of the Lean model); returns values + envelope
-def reference(pop, ip, ages, w=None):
+def reference(pop, ip, ages, w=None, cond_term=False):
+    # (`cond_term` is switched on by this module only; c10_gauge.py imports this function and keeps its envelope)
     kind, d = pop["kind"], pop["d"]
     src = ip.get("sources")
     if w is None:
@@ -182,6 +320,15 @@ def reference(pop, ip, ages, w=None):
     if pop["ns"] > 0:
         dw = 64 * EPS32 * sum(abs(x) for x in src) * max(sum(abs(b) for b in row) for row in zip(*pop["betas"]))
         dw = max(dw, 64 * EPS32 * max(abs(x) for x in w))
+        if kind == "shared_speed_logistic" and cond_term:
+            # conditioning of the direction the basis is orthogonal to: the code forms 1 + g e^-delta and 1 - 1/(1 + g e^-delta) in
+            # float32, which lose log2(1/(g e^-delta)) bits for an early feature (g e^-delta << 1): the basis, hence the space
+            # shift, is then accurate to eps32 / min_k(g e^-delta_k) only (measured: <= 3.7 times that on 300 random models).
+            # Nothing is added inside the range of the stored models (1 / (g e^-delta) <= 20).
+            gde_min = min(math.exp(pop["log_g"]) * math.exp(-dl) for dl in [0.0] + list(pop["deltas"]))
+            cond = 1.0 / gde_min
+            if cond > 20.0:
+                dw += 16 * EPS32 * (cond - 20.0) * sum(abs(x) for x in src) * max(sum(abs(b) for b in row) for row in zip(*pop["betas"]))
     else:
         dw = 0.0
     alpha = math.exp(ip["xi"])
@@ -268,9 +415,17 @@ class Cohort:
         self.env, self.model, self.pop, self.tag = env, model, pop, tag
         self.ips = {}      # id -> ip dict
         self.ages = {}     # id -> list of ages
+        self.ip_style = {}       # id -> representation of the individual-parameter dict handed to compute_individual_trajectory
+        self.age_container = {}  # id -> container / dtype of the ages handed to compute_individual_trajectory
+        self.settings = None     # the settings the model was built from (None for stored models)
+        self.history = None
 
     def case_json(self, extra=None):
         c = {"pop": {k: v for k, v in self.pop.items() if k != "mixing"}, "ips": self.ips, "ages": self.ages, "tag": self.tag}
+        if self.ip_style or self.age_container:
+            c["ip_style"], c["age_container"] = dict(self.ip_style), dict(self.age_container)
+        if self.settings is not None:
+            c["obs_model"] = self.settings["obs_models"]["y"]
         if getattr(self, "history", None):
             c["history"] = self.history
         if extra:
@@ -281,11 +436,20 @@ class Cohort:
 def run_traj(chk, co, sid, lines, pending):
     """compute_individual_trajectory for one individual: predicate on the implementation + queue the model line."""
     env, pop = co.env, co.pop
-    ip, ages = co.ips[sid], co.ages[sid]
+    ip, ages_req = co.ips[sid], co.ages[sid]
+    ip_style, container = co.ip_style.get(sid), co.age_container.get(sid)
+    # the implementation works on the float32 roundings of the requested ages (identical unless the style is "fine")
+    ages = [f32(t) for t in ages_req]
     case = co.case_json({"op": "compute_individual_trajectory", "id": sid})
     try:
         with core.quiet():
-            y = co.model.compute_individual_trajectory(ages, ip)
+            if ip_style == "tensorized-skip-checks":
+                # documented speed-up: individual parameters already tensorized (2D), checks skipped
+                tz = {k: env["torch"].tensor([v] if k != "sources" else [list(v)], dtype=env["torch"].float32).reshape(1, -1)
+                      for k, v in ip.items()}
+                y = co.model.compute_individual_trajectory(dress_ages(env, ages_req, container), tz, skip_ips_checks=True)
+            else:
+                y = co.model.compute_individual_trajectory(dress_ages(env, ages_req, container), dress_ip(env, ip, ip_style))
         y = y.detach().cpu().double().numpy()
     except Exception as e:  # noqa
         chk.impl_failure(case, f"compute_individual_trajectory raised on an admissible input: {err_class(e, env)}: {e}")
@@ -295,7 +459,11 @@ def run_traj(chk, co, sid, lines, pending):
         chk.impl_failure(case, f"shape {y.shape} instead of (1, {len(ages)}, {d})")
         return None
     y = y[0]
-    ref, tol, w = reference(pop, ip, ages)
+    if ip_style:
+        chk.tag("ip_representation", ip_style)
+    if container:
+        chk.tag("ages_container", container)
+    ref, tol, w = reference(pop, ip, ages, cond_term=True)
     fails = []
     worst = 0.0
     for i, t in enumerate(ages):
@@ -343,7 +511,7 @@ def run_anchor(chk, co, rng, lines, pending):
     except Exception as e:  # noqa
         chk.impl_failure(case, f"compute_individual_trajectory raised at t = tau: {err_class(e, env)}: {e}")
         return
-    _, tol, _ = reference(pop, ip, ages, w=[0.0] * pop["d"])
+    _, tol, _ = reference(pop, ip, ages, w=[0.0] * pop["d"], cond_term=True)
     for k in range(pop["d"]):
         want = anchor_value(pop, k)
         if abs(float(y[k]) - want) > tol[0][k]:
@@ -372,15 +540,98 @@ def canon_rows_to_tokens(env, co, keys, values, traj_by_id):
     return out
 
 
-def run_estimate(chk, co, rng, traj_by_id, lines, pending, ix_override=None, scalar_id=None, layout_override=None):
+EST_ROUTES = ["add", "add", "add-numpy", "from_dataframe", "from_pytorch", "json", "csv"]
+EST_DICT_CONTAINERS = ["list", "list", "tuple", "np64", "np32", "int-list", "np-int64"]
+
+
+def random_variant(rng, co):
+    """How the request reaches estimate(): which constructor / converter produced the IndividualParameters object, whether it
+    holds more individuals than are requested, the container of each age list, the `to_dataframe` argument left to its default,
+    the dtype of the TIME level and the way the requested MultiIndex was obtained (built / sliced out of a larger one /
+    categorical identifiers with a category that is not requested)."""
+    pop = co.pop
+    extras = {}
+    for name in rng.sample(["zz-extra", "0", "S1x"], rng.choice([0, 0, 1, 2])):
+        extras[name] = random_ip(rng, pop)
+    order = list(co.ips) + list(extras)
+    rng.shuffle(order)
+    conts = {}
+    for sid, ages in co.ages.items():
+        ok = [c for c in EST_DICT_CONTAINERS
+              if (c not in ("np32",) or all(is_f32(a) for a in ages))
+              and (c not in ("int-list", "np-int64") or all(float(a).is_integer() for a in ages))]
+        conts[sid] = rng.choice(ok)
+    all_ages = [a for ts in co.ages.values() for a in ts]
+    tds = ["float64", "float64"]
+    if all(float(a).is_integer() for a in all_ages):
+        tds += ["int64", "int64"]
+    if all(is_f32(a) for a in all_ages):
+        tds += ["float32"]
+    return {"route": rng.choice(EST_ROUTES), "extras": extras, "ip_order": order, "dict_container": conts,
+            "todf": rng.choice(["explicit", "default"]), "time_dtype": rng.choice(tds),
+            "index_kind": rng.choice(["plain", "plain", "sliced", "categorical", "categorical-unused"]),
+            "scalar_kind": rng.choice(["float", "np.float64", "int"])}
+
+
+PLAIN_VARIANT = {"route": "add", "extras": {}, "ip_order": None, "dict_container": {}, "todf": "explicit", "time_dtype": "float64",
+                 "index_kind": "plain", "scalar_kind": "float"}
+
+
+def make_ip_object(env, chk, co, variant):
+    """IndividualParameters holding the cohort (+ the variant's extra individuals, in the variant's order) obtained through
+    the variant's public route. A route that fails for reasons of its own (C16's matter) falls back to plain `add`."""
+    import os
+    import shutil
+    import tempfile
+    np, IP = env["np"], env["IndividualParameters"]
+    everyone = dict(co.ips)
+    everyone.update(variant.get("extras") or {})
+    order = variant.get("ip_order") or list(everyone)
+    base = IP()
+    for sid in order:
+        base.add_individual_parameters(sid, dict(everyone[sid]))
+    route = variant.get("route", "add")
+    if route == "add":
+        return base, order
+    try:
+        with core.quiet():
+            if route == "add-numpy":
+                obj = IP()
+                for sid in order:
+                    ip = everyone[sid]
+                    d = {"xi": np.float32(ip["xi"]), "tau": np.float64(ip["tau"])}
+                    if "sources" in ip:
+                        d["sources"] = np.array(ip["sources"], dtype=np.float64)
+                    obj.add_individual_parameters(sid, d)
+            elif route == "from_dataframe":
+                obj = IP.from_dataframe(base.to_dataframe())
+            elif route == "from_pytorch":
+                obj = IP.from_pytorch(*base.to_pytorch())
+            else:
+                tmp = tempfile.mkdtemp(prefix="c09_ip_")
+                try:
+                    path = os.path.join(tmp, "ip." + route)
+                    base.save(path)
+                    obj = IP.load(path)
+                finally:
+                    shutil.rmtree(tmp, ignore_errors=True)
+        if list(obj._indices) != order:
+            raise ValueError("order of individuals changed")
+        chk.tag("ip_object_route", route)
+        return obj, order
+    except Exception as e:  # noqa
+        chk.tag("ip_object_route", f"{route}-unavailable:{type(e).__name__}")
+        return base, order
+
+
+def run_estimate(chk, co, rng, traj_by_id, lines, pending, ix_override=None, scalar_id=None, layout_override=None, variant=None):
     """model.estimate in its four input/output layouts."""
     env, pop = co.env, co.pop
     pd, np = env["pd"], env["np"]
-    ip_obj = env["IndividualParameters"]()
-    for sid, ip in co.ips.items():
-        ip_obj.add_individual_parameters(sid, dict(ip))
-    ids = list(co.ips)
-    req_ids = ids[:]
+    variant = dict(PLAIN_VARIANT, **(variant or {}))
+    ip_obj, ip_order = make_ip_object(env, chk, co, variant)
+    ids = list(ip_order)
+    req_ids = list(co.ips)
     rng.shuffle(req_ids)
     known = ",".join(ids)
     feats = pop["features"]
@@ -391,9 +642,11 @@ def run_estimate(chk, co, rng, traj_by_id, lines, pending, ix_override=None, sca
     def dict_req():
         r = {}
         for sid in req_ids:
-            r[sid] = list(co.ages[sid])
+            r[sid] = dress_ages(env, co.ages[sid], variant["dict_container"].get(sid))
         if scalar_id is not None:
-            r[scalar_id] = co.ages[scalar_id][0]   # documented: "a unique time-point or a list of time-points"
+            t0 = co.ages[scalar_id][0]   # documented: "a unique time-point or a list of time-points"
+            sk = variant.get("scalar_kind", "float")
+            r[scalar_id] = np.float64(t0) if sk == "np.float64" else (int(t0) if sk == "int" and float(t0).is_integer() else t0)
         return r
 
     def req_str():
@@ -408,21 +661,47 @@ def run_estimate(chk, co, rng, traj_by_id, lines, pending, ix_override=None, sca
     ix_str = fmt_list([f"{sid}:{age_tok(t)}" for sid, t in ix_list], sep=";")
     has_dup_pair = len(set(ix_list)) < len(ix_list)
 
-    calls = [("dict", False), ("frame", True), ("ixframe", None), ("ixdict", False)]
+    todf_default = variant.get("todf") == "default"
+    # (`None` = the documented default: a dict for a dict request, a data frame for an index request)
+    calls = [("dict", None if todf_default else False), ("frame", True), ("ixframe", None if not todf_default else True), ("ixdict", False)]
     # layout of the requested index: the levels ID and TIME in either order, possibly among extra levels
     # ("join so to handle multi-levels cases"): the result must come back on exactly the requested index
     layout = layout_override if layout_override is not None else rng.choice(
         [["ID", "TIME"], ["ID", "TIME"], ["TIME", "ID"], ["ID", "TIME", "VISIT"], ["VISIT", "TIME", "ID"], ["TIME", "VISIT", "ID"]])
+    index_kind, time_dtype = variant.get("index_kind", "plain"), variant.get("time_dtype", "float64")
+    if time_dtype == "int64" and not all(float(b).is_integer() for _, b in ix_list):
+        time_dtype = "float64"
+    if time_dtype == "float32" and not all(is_f32(b) for _, b in ix_list):
+        time_dtype = "float64"
+    unused_id = "unused-category"
 
     def make_index():
-        cols = {"ID": [a for a, _ in ix_list], "TIME": [b for _, b in ix_list], "VISIT": list(range(100, 100 + len(ix_list)))}
-        return pd.MultiIndex.from_arrays([cols[n] for n in layout], names=layout)
+        n = len(ix_list)
+        id_col, t_col = [a for a, _ in ix_list], [b for _, b in ix_list]
+        if index_kind == "sliced":
+            # the rows of interest taken out of a larger index: the levels keep identifiers / ages that are not requested
+            id_col, t_col = id_col + ["not-requested", (id_col or ["x"])[0]], t_col + [55.0, 1234.0]
+        t_arr = np.array(t_col, dtype={"int64": np.int64, "float32": np.float32}.get(time_dtype, np.float64))
+        if index_kind.startswith("categorical"):
+            cats = sorted(set(id_col)) + ([unused_id] if index_kind == "categorical-unused" else [])
+            id_arr = pd.Categorical(id_col, categories=cats)
+        else:
+            id_arr = id_col
+        cols = {"ID": id_arr, "TIME": t_arr, "VISIT": list(range(100, 100 + len(id_col)))}
+        mi = pd.MultiIndex.from_arrays([cols[nm] for nm in layout], names=layout)
+        return mi[:n] if index_kind == "sliced" else mi
 
     for mode, to_df in calls:
         case = co.case_json({"op": "estimate", "mode": mode, "request_ids": req_ids, "ix": ix_list if mode.startswith("ix") else None,
-                             "scalar_id": scalar_id, "layout": layout if mode.startswith("ix") else None})
+                             "scalar_id": scalar_id, "layout": layout if mode.startswith("ix") else None, "variant": variant,
+                             "to_dataframe": to_df})
         if mode.startswith("ix"):
             chk.tag("index_layout", "/".join(layout))
+            chk.tag("index_kind", f"{index_kind}/{time_dtype}")
+        else:
+            for c in set(variant["dict_container"].values()):
+                chk.tag("estimate_dict_ages_container", c)
+        chk.tag("estimate_to_dataframe_arg", f"{mode}:{to_df}")
         finding = None
         if mode == "ixframe" and has_dup_pair:
             finding = "F17"
@@ -433,12 +712,17 @@ def run_estimate(chk, co, rng, traj_by_id, lines, pending, ix_override=None, sca
                 if mode in ("dict", "frame"):
                     out = co.model.estimate(dict_req(), ip_obj, to_dataframe=to_df)
                 elif mode == "ixframe":
-                    out = co.model.estimate(make_index(), ip_obj)
+                    out = co.model.estimate(make_index(), ip_obj) if to_df is None else co.model.estimate(make_index(), ip_obj, to_dataframe=to_df)
                 else:
                     out = co.model.estimate(make_index(), ip_obj, to_dataframe=False)
         except Exception as e:  # noqa
             # F18's region is narrow: the TypeError of the frame index built from a scalar time-point
             fid = finding if (finding == "F18" and isinstance(e, TypeError)) else None
+            # F93's region is narrow: identifiers given as a categorical level with a category that is not requested, refused
+            # as an unknown individual named after that very category
+            if (mode.startswith("ix") and index_kind == "categorical-unused" and err_class(e, env) == "err:input"
+                    and unused_id in str(e) and "unknown" in str(e)):
+                fid = "F93"
             chk.impl_failure(case, f"estimate({mode}) raised on an admissible request: {err_class(e, env)}: {e}", finding=fid)
             continue
         # ---- the property's predicate on the implementation's output + canonical form for the model diff
@@ -562,11 +846,12 @@ def compare(chk, lines, pending):
 
 
 # ----------------------------------------------------------------------------------------------
-def build_cohort(env, chk, rng, settings=None, path=None):
+def build_cohort(env, chk, rng, settings=None, path=None, more=False, model=None):
     BaseModel = env["BaseModel"]
     try:
         with core.quiet():
-            model = BaseModel.load(settings if settings is not None else path)
+            if model is None:
+                model = BaseModel.load(settings if settings is not None else path)
     except Exception as e:  # noqa
         if settings is not None:
             chk.impl_failure({"settings": settings}, f"admissible model settings refused: {err_class(e, env)}: {e}")
@@ -578,16 +863,124 @@ def build_cohort(env, chk, rng, settings=None, path=None):
         chk.tag("stored_model_skipped", type(model).__name__)
         return None
     co = Cohort(env, model, pop, path or "random")
+    co.settings = settings
+    if settings is not None:
+        check_pop(chk, co, settings.get("parameters"), "the settings it was loaded from")
+    elif path is not None:
+        try:
+            check_pop(chk, co, json.loads(open(path).read()).get("parameters"), "its stored file")
+        except (OSError, ValueError):
+            pass
     n_ind = rng.randrange(1, 4)
     names = rng.sample(["S1", "b", "A", "sub-07", "Z9", "a1"], n_ind)
-    for sid in names:
-        co.ips[sid] = random_ip(rng, pop)
-        co.ages[sid], _ = random_ages(rng, co.ips[sid]["tau"])
+    populate(env, rng, co, names, more)
     return co
 
 
-def process(chk, co, rng, lines, pending, ix_override=None, scalar=False, layout=None):
+def populate(env, rng, co, names, more):
     pop = co.pop
+    tau_centre = None
+    if more:
+        try:
+            tau_centre = float(co.model.state["tau_mean"].reshape(-1)[0])
+        except Exception:  # noqa
+            tau_centre = None
+    # sometimes every individual of the cohort has whole-number ages (visit years): the TIME level of the index is then int64
+    force = "integral" if (more and rng.random() < 0.15) else None
+    for sid in names:
+        co.ips[sid] = random_ip(rng, pop, tau_centre=tau_centre, wide=more)
+        co.ages[sid], _ = random_ages(rng, co.ips[sid]["tau"], more=more, force=force)
+        if more and rng.random() < 0.6:
+            co.ip_style[sid] = rng.choice(IP_STYLES + ["tensorized-skip-checks"])
+        if more and rng.random() < 0.6:
+            co.age_container[sid] = pick_age_container(rng, co.ages[sid])
+
+
+def check_pop(chk, co, P, source):
+    """Never trust what the implementation derived: the population values the model computes with (read off its state, they
+    feed the closed form) must be the parameters it was given (`source`: the settings, the stored file, or — after a fit — the
+    model's own public `parameters`). On a mismatch the closed form is evaluated with the parameters, as the property says."""
+    if P is None:
+        return
+    pop = co.pop
+
+    def flat(x):
+        x = x.tolist() if hasattr(x, "tolist") else x
+        out = []
+        def rec(v):
+            if isinstance(v, (list, tuple)):
+                for u in v:
+                    rec(u)
+            else:
+                out.append(f32(v))
+        rec(x)
+        return out
+
+    want = {}
+    try:
+        if pop["kind"] == "logistic":
+            want["log_g"], want["log_v0"] = flat(P["log_g_mean"]), flat(P["log_v0_mean"])
+        elif pop["kind"] == "linear":
+            want["g"], want["log_v0"] = flat(P["g_mean"]), flat(P["log_v0_mean"])
+        else:
+            want["log_g"], want["deltas"] = flat(P["log_g_mean"])[0], flat(P["deltas_mean"])
+        if pop["ns"] > 0:
+            b = flat(P["betas_mean"])
+            want["betas"] = [b[i * pop["ns"]:(i + 1) * pop["ns"]] for i in range(pop["d"] - 1)]
+    except (KeyError, IndexError, TypeError, ValueError):
+        chk.tag("pop_cross_check", "parameters-not-in-this-format")
+        return
+    bad = [k for k, v in want.items() if pop.get(k) != v]
+    chk.tag("pop_cross_check", "differs" if bad else "same")
+    for k in bad[:1]:
+        chk.impl_failure(co.case_json({"op": "population-values", "source": source}),
+                         f"the model computes trajectories with {k} = {pop.get(k)} although its parameters ({source}) say {want[k]}")
+    pop.update(want)
+
+
+def run_empty_request(chk, co, rng):
+    """Boundary of "every list of ages": no age at all for one individual — an empty (0, dimension) block for it, nothing of
+    it in the data frame, and the other individuals unaffected."""
+    env, np, pd = co.env, co.env["np"], co.env["pd"]
+    ip_obj = env["IndividualParameters"]()
+    for sid, ip in co.ips.items():
+        ip_obj.add_individual_parameters(sid, dict(ip))
+    ids = list(co.ips)
+    empty = rng.choice(ids)
+    req = {sid: ([] if sid == empty else list(co.ages[sid])) for sid in ids}
+    case = co.case_json({"op": "estimate-empty-age-list", "empty_for": empty})
+    d = co.pop["d"]
+    try:
+        with core.quiet():
+            out = co.model.estimate(req, ip_obj)
+            y0 = co.model.compute_individual_trajectory([], dict(co.ips[empty]))
+            fr = co.model.estimate(req, ip_obj, to_dataframe=True) if len(ids) > 1 else None
+    except Exception as e:  # noqa
+        chk.impl_failure(case, f"an empty list of ages for one individual raised {err_class(e, env)}: {e}")
+        return
+    fails = []
+    if tuple(y0.shape) != (1, 0, d):
+        fails.append(f"compute_individual_trajectory([]) has shape {tuple(y0.shape)}, expected (1, 0, {d})")
+    if list(out.keys()) != ids:
+        fails.append(f"keys {list(out.keys())} != requested {ids}")
+    for sid in ids:
+        a = np.asarray(out.get(sid))
+        if a.shape != (len(req[sid]), d):
+            fails.append(f"estimate[{sid}] has shape {a.shape} for {len(req[sid])} requested ages")
+    if fr is not None:
+        keys = [(a, float(b)) for a, b in fr.index.tolist()]
+        want = [(sid, float(t)) for sid in ids for t in req[sid]]
+        if keys != want:
+            fails.append(f"data frame rows {keys[:5]}… != requested pairs {want[:5]}…")
+    for f in fails[:2]:
+        chk.impl_failure(case, f)
+    chk.tag("edge_request", "empty age list")
+
+
+def process(chk, co, rng, lines, pending, ix_override=None, scalar=False, layout=None, variant=None, more=False):
+    pop = co.pop
+    if more and variant is None:
+        variant = random_variant(rng, co)
     traj_by_id = {}
     for sid in co.ips:
         y = run_traj(chk, co, sid, lines, pending)
@@ -597,7 +990,10 @@ def process(chk, co, rng, lines, pending, ix_override=None, scalar=False, layout
     scalar_id = None
     if scalar:
         scalar_id = next(iter(co.ips))
-    run_estimate(chk, co, rng, traj_by_id, lines, pending, ix_override=ix_override, scalar_id=scalar_id, layout_override=layout)
+    run_estimate(chk, co, rng, traj_by_id, lines, pending, ix_override=ix_override, scalar_id=scalar_id, layout_override=layout,
+                 variant=variant)
+    if more and rng.random() < 0.25:
+        run_empty_request(chk, co, rng)
     all_ages = [t for ts in co.ages.values() for t in ts]
     nontrivial = any(len(set(ts)) >= 2 for ts in co.ages.values())
     styles = []
@@ -610,6 +1006,12 @@ def process(chk, co, rng, lines, pending, ix_override=None, scalar=False, layout
             styles.append("unsorted")
         if any(abs(t - 70) >= 199 for t in ts):
             styles.append("far")
+        if any(not is_f32(t) for t in ts):
+            styles.append("not-float32-numbers")
+        if len(ts) >= 17:
+            styles.append("long")
+        if ts and all(float(t).is_integer() for t in ts):
+            styles.append("integral")
     key = (pop["kind"], pop["d"], pop["ns"], json.dumps(co.ips, sort_keys=True), json.dumps(co.ages, sort_keys=True), co.tag)
     chk.case(key, nontrivial=nontrivial, sample=co.case_json() if pop["d"] <= 2 and len(all_ages) <= 6 else None,
              tags={"kind": pop["kind"], "dimension": pop["d"], "sources": pop["ns"], "n_individuals": len(co.ips)})
@@ -617,11 +1019,20 @@ def process(chk, co, rng, lines, pending, ix_override=None, scalar=False, layout
         chk.tag("age_styles", s)
 
 
-def reuse_same_object(env, chk, co, rng, lines, pending):
+def reuse_same_object(env, chk, co, rng, lines, pending, more=False):
     """History clause: the SAME model object after its parameters were replaced in place (`load_parameters`) must follow
     the new parameters. The expected population values are read off a fresh model loaded from the same settings, so a value
     left over from before the update (a cached working copy, a population variable not re-derived) is a closed-form mismatch."""
-    st2 = random_settings(rng, co.pop["kind"], co.pop["d"], co.pop["ns"])
+    st2 = random_settings(rng, co.pop["kind"], co.pop["d"], co.pop["ns"], wide=more)
+    obs1 = (co.settings or {}).get("obs_models", {}).get("y")
+    if obs1 is not None and obs1 != st2["obs_models"]["y"]:
+        # same object, hence same observation model: only its parameters are replaced
+        st2["obs_models"] = {"y": obs1}
+        if obs1 == "bernoulli":
+            st2["parameters"].pop("noise_std", None)
+        else:
+            d = co.pop["d"]
+            st2["parameters"]["noise_std"] = [f32(0.1)] * d if d > 1 else f32(0.1)
     try:
         with core.quiet():
             co.model.load_parameters(dict(st2["parameters"]))
@@ -637,12 +1048,118 @@ def reuse_same_object(env, chk, co, rng, lines, pending):
     co.history = {"first_pop": {k: v for k, v in co.pop.items() if k != "mixing"}, "first_ips": dict(co.ips), "first_ages": dict(co.ages),
                   "new_parameters": st2["parameters"]}
     co.pop = pop2
+    co.settings = st2
+    check_pop(chk, co, st2["parameters"], "the parameters loaded in place")
     co.tag = str(co.tag) + "+parameters-replaced-in-place"
-    for sid in list(co.ips):
-        co.ips[sid] = random_ip(rng, pop2)
-        co.ages[sid], _ = random_ages(rng, co.ips[sid]["tau"])
-    process(chk, co, rng, lines, pending)
+    names = list(co.ips)
+    co.ips, co.ages, co.ip_style, co.age_container = {}, {}, {}, {}
+    populate(env, rng, co, names, more)
+    process(chk, co, rng, lines, pending, more=more)
     chk.tag("history", "estimate after in-place load_parameters")
+
+
+def transformed_model(env, model, how):
+    """Another public way to the same model: a deep copy, or the model written to a file and loaded back."""
+    import copy
+    import os
+    import shutil
+    import tempfile
+    if how == "deepcopy":
+        return copy.deepcopy(model)
+    if how == "save-load":
+        tmp = tempfile.mkdtemp(prefix="c09_model_")
+        try:
+            path = os.path.join(tmp, "model.json")
+            model.save(path)
+            return env["BaseModel"].load(path)
+        finally:
+            shutil.rmtree(tmp, ignore_errors=True)
+    raise ValueError(how)
+
+
+def copy_history(env, chk, co, rng, lines, pending, how, more=True):
+    """The curve of a deep copy / of the model saved and loaded back is the curve of the same parameters."""
+    try:
+        with core.quiet():
+            m2 = transformed_model(env, co.model, how)
+    except Exception as e:  # noqa
+        chk.impl_failure(co.case_json({"op": how}), f"{how} of a loaded model raised {err_class(e, env)}: {e}")
+        return
+    pop2 = pop_of_model(m2)
+    if pop2 is None:
+        chk.impl_failure(co.case_json({"op": how}), f"{how} gives a model of another class ({type(m2).__name__})")
+        return
+    co2 = Cohort(env, m2, pop2, str(co.tag) + "+" + how)
+    co2.settings = co.settings
+    co2.history = {"kind": how}
+    if co.settings is not None:
+        check_pop(chk, co2, co.settings.get("parameters"), f"the settings of the model it is a {how} of")
+    populate(env, rng, co2, list(co.ips), more)
+    process(chk, co2, rng, lines, pending, more=more)
+    chk.tag("history", how)
+
+
+FIT_SHAPES = [("logistic", 1, 0), ("logistic", 3, 2), ("linear", 2, 1), ("shared_speed_logistic", 3, 1), ("shared_speed_logistic", 2, 0),
+              ("linear", 1, 0), ("logistic", 2, 1)]
+
+
+def fit_recipe(rng, kind, d, ns):
+    rows = []
+    for i in range(rng.randrange(4, 7)):
+        t0 = rng.uniform(60, 80)
+        base = [rng.uniform(0.1, 0.6) for _ in range(d)]
+        for k in range(rng.choice([2, 3, 4])):
+            rows.append([f"f{i}", round(t0 + 1.5 * k + rng.uniform(0, 1), 3)] + [round(min(0.97, b + 0.07 * k + rng.uniform(-0.03, 0.03)), 4) for b in base])
+    return {"kind": "after-fit", "model": [kind, d, ns], "rows": rows, "n_iter": rng.choice([3, 5]), "seed": rng.randrange(0, 1000),
+            "then": rng.choice(["nothing", "personalize", "personalize"])}
+
+
+def fitted_model(env, recipe):
+    """A model in the state a fit (and possibly a personalisation) leaves it in: its state holds the training cohort's data and
+    individual variables. Raises what the fit raises."""
+    pd = env["pd"]
+    from leaspy.models import model_factory
+    kind, d, ns = recipe["model"]
+    df = pd.DataFrame(recipe["rows"], columns=["ID", "TIME"] + [f"Y{k}" for k in range(d)])
+    model = model_factory(kind, source_dimension=ns) if d > 1 else model_factory(kind)
+    model.fit(df, "mcmc_saem", n_iter=recipe["n_iter"], seed=recipe["seed"])
+    if recipe.get("then") == "personalize":
+        model.personalize(df, "scipy_minimize", seed=recipe["seed"])
+    return model
+
+
+def fit_history(env, chk, rng, lines, pending, recipe=None, ips=None, ages=None, styles=None, kw=None):
+    """Process state: the model as a fit leaves it (data and the training individuals' variables inside its state), used for
+    other individuals. Expected population values: the model's own public parameters."""
+    if recipe is None:
+        recipe = fit_recipe(rng, *rng.choice(FIT_SHAPES))
+    try:
+        with core.quiet():
+            model = fitted_model(env, recipe)
+    except Exception as e:  # noqa
+        chk.tag("history", f"after-fit skipped ({type(e).__name__})")   # a 3-iteration fit that does not converge is not C09's matter
+        return
+    pop = pop_of_model(model)
+    if pop is None:
+        return
+    co = Cohort(env, model, pop, "random+after-fit")
+    co.history = recipe
+    try:
+        check_pop(chk, co, dict(model.parameters), "its public parameters after the fit")
+    except Exception:  # noqa
+        pass
+    if any(not math.isfinite(x) for k in ("log_g", "g", "log_v0", "deltas") if k in pop
+           for x in (pop[k] if isinstance(pop[k], list) else [pop[k]])):
+        chk.tag("history", "after-fit skipped (non-finite parameters)")
+        return
+    if ips is not None:
+        co.ips, co.ages = ips, ages
+        co.ip_style, co.age_container = dict((styles or {}).get("ip_style") or {}), dict((styles or {}).get("age_container") or {})
+        process(chk, co, rng, lines, pending, **(kw or {}))
+    else:
+        populate(env, rng, co, rng.sample(["S1", "b", "A", "f0", "Z9"], rng.randrange(1, 4)), True)
+        process(chk, co, rng, lines, pending, more=True)
+    chk.tag("history", "after-fit" + ("+personalize" if recipe.get("then") == "personalize" else ""))
 
 
 def probe_findings(chk, env, rng, lines, pending):
@@ -661,9 +1178,17 @@ def probe_findings(chk, env, rng, lines, pending):
     co2.ips = {"A": {"xi": -0.125, "tau": 75.0, "sources": [-0.25]}}
     co2.ages = {"A": [60.0]}
     process(chk, co2, rng, lines, pending, scalar=True)
+    # F93: identifiers as a categorical level with a category nobody asked for (a cohort table sliced to a few individuals)
+    co3 = build_cohort(env, chk, rng, settings=st)
+    if co3 is None:
+        return
+    co3.ips = {"B": {"xi": 0.125, "tau": 70.0, "sources": [0.5]}, "A": {"xi": -0.125, "tau": 75.0, "sources": [-0.25]}}
+    co3.ages = {"B": [80.0, 70.0], "A": [60.0]}
+    process(chk, co3, rng, lines, pending, ix_override=[("B", 80.0), ("A", 60.0), ("B", 70.0)], layout=["ID", "TIME"],
+            variant={"index_kind": "categorical-unused"})
     hit = {f["finding"] for f in chk.impl_failures[n0:] if f["finding"]}
     listed = {f["id"]: f for f in chk.findings}
-    for fid in ("F17", "F18"):
+    for fid in ("F17", "F18", "F93"):
         if fid in hit:
             if listed.get(fid, {}).get("status") == "finding":
                 chk.known_finding_reproduces(fid, "witness reproduces")
@@ -678,7 +1203,15 @@ def run(chk: core.Check):
                 "dimension 1..6 x source dimension 0..dim-1, plus every loadable stored model of these kinds under tests/_data/model_parameters; "
                 "1-3 individuals each with random (xi, tau, sources) and an age list that is single / sorted / unsorted / repeated / "
                 "+-200 years / at tau; per cohort: compute_individual_trajectory per individual, the t=tau anchor, and estimate() in its "
-                "4 input/output layouts (shuffled ids, interleaved unsorted MultiIndex). A case (= cohort) is non-trivial when some individual "
+                "4 input/output layouts (shuffled ids, interleaved unsorted MultiIndex). Every other round widens: parameters at the edge of "
+                "the documented domain (g from e^-5 to e^7, velocities over four decades, linear scores in any unit, loadings of order 1, "
+                "time axis in years since baseline or months, Bernoulli observation model, 12 features / 11 sources), ages with many decimals / "
+                "integral / dozens, ages and individual parameters in every accepted container and dtype (tuple, numpy, torch, pandas, "
+                "one-element lists, integers, tensorized + skip_ips_checks), IndividualParameters built by add / from_dataframe / from_pytorch / "
+                "json / csv and holding more individuals than requested, to_dataframe left to its default, TIME level int64 / float32, index "
+                "sliced out of a larger one or with categorical identifiers, an empty age list; histories: in-place load_parameters, deep copy, "
+                "save + load, the model as a fit (+ personalisation) leaves it; population values cross-checked against the parameters given. "
+                "A case (= cohort) is non-trivial when some individual "
                 "has >= 2 distinct ages; distinct by kind, dimension, parameters, individual parameters and ages.")
     lines, pending = [], []
     for c in core.load_corpus(PROP):
@@ -694,14 +1227,27 @@ def run(chk: core.Check):
             for ns in sorted({0, 1, d - 1}):
                 if ns < d and (ns == 0 or d > 1):
                     combos.append((kind, d, ns))
-    n_rounds = 3 if chk.tier == "quick" else 60
-    for _ in range(n_rounds):
-        for kind, d, ns in combos:
-            co = build_cohort(env, chk, rng, settings=random_settings(rng, kind, d, ns))
+    # plain rounds (the ranges of the stored models, python lists and floats, one IndividualParameters built by `add`) alternate
+    # with "more" rounds: parameters at the edge of the documented domain, every accepted container / dtype of ages and individual
+    # parameters, other routes to the IndividualParameters object, more individuals in it than requested, other index dtypes
+    n_rounds = 6 if chk.tier == "quick" else 70
+    big = [(kind, 12, ns) for kind in KINDS for ns in (0, 1, 11)]
+    for r in range(n_rounds):
+        more = r % 2 == 1
+        todo = list(combos)
+        if more:
+            todo += rng.sample(big, 2 if chk.tier == "quick" else 4)       # > 10 features / sources
+        for kind, d, ns in todo:
+            co = build_cohort(env, chk, rng, settings=random_settings(rng, kind, d, ns, wide=more), more=more)
             if co is not None:
-                process(chk, co, rng, lines, pending, scalar=(rng.random() < 0.15))
-                if rng.random() < 0.4:
-                    reuse_same_object(env, chk, co, rng, lines, pending)
+                process(chk, co, rng, lines, pending, scalar=(rng.random() < 0.15), more=more)
+                u = rng.random()
+                if u < 0.4:
+                    reuse_same_object(env, chk, co, rng, lines, pending, more=more)
+                elif more and u < 0.55:
+                    copy_history(env, chk, co, rng, lines, pending, rng.choice(["deepcopy", "save-load"]))
+    for _ in range(3 if chk.tier == "quick" else 16):
+        fit_history(env, chk, rng, lines, pending)
     stored = sorted(glob.glob(str(core.REPO / "tests/_data/model_parameters/**/*.json"), recursive=True))
     if chk.tier == "quick":
         stored = [p for p in stored if "_arm" not in p and "gpu" not in p]
@@ -713,11 +1259,30 @@ def run(chk: core.Check):
         if name not in KINDS:
             chk.tag("stored_model_skipped", str(name))
             continue
-        co = build_cohort(env, chk, rng, path=p)
+        more = rng.random() < 0.5
+        co = build_cohort(env, chk, rng, path=p, more=more)
         if co is not None:
             co.tag = p.split("model_parameters/")[-1]
-            process(chk, co, rng, lines, pending)
+            process(chk, co, rng, lines, pending, more=more)
     compare(chk, lines, pending)
+
+
+def settings_of_pop(pop, obs=None):
+    kind, d, ns = pop["kind"], pop["d"], pop["ns"]
+    obs = obs or ("gaussian-diagonal" if d > 1 else "gaussian-scalar")
+    P = {"tau_mean": [70.0], "tau_std": [5.0], "xi_std": [0.5]}
+    if obs != "bernoulli":
+        P["noise_std"] = [0.1] * d if d > 1 else 0.1
+    if kind == "logistic":
+        P["log_g_mean"], P["log_v0_mean"] = pop["log_g"], pop["log_v0"]
+    elif kind == "linear":
+        P["g_mean"], P["log_v0_mean"] = pop["g"], pop["log_v0"]
+    else:
+        P["log_g_mean"], P["deltas_mean"], P["xi_mean"] = [pop["log_g"]], pop["deltas"], [0.0]
+    if ns:
+        P["betas_mean"] = pop["betas"]
+    return {"leaspy_version": "2.0.0-dev", "name": kind, "features": pop["features"], "dimension": d,
+            "obs_models": {"y": obs}, "parameters": P, "source_dimension": ns}
 
 
 def replay(chk: core.Check, payload):
@@ -727,37 +1292,48 @@ def replay(chk: core.Check, payload):
         chk.note("replay file has no case")
         return
     pop = case["pop"]
-    kind, d, ns = pop["kind"], pop["d"], pop["ns"]
-    P = {"tau_mean": [70.0], "tau_std": [5.0], "xi_std": [0.5], "noise_std": [0.1] * d if d > 1 else 0.1}
-    if kind == "logistic":
-        P["log_g_mean"], P["log_v0_mean"] = pop["log_g"], pop["log_v0"]
-    elif kind == "linear":
-        P["g_mean"], P["log_v0_mean"] = pop["g"], pop["log_v0"]
-    else:
-        P["log_g_mean"], P["deltas_mean"], P["xi_mean"] = [pop["log_g"]], pop["deltas"], [0.0]
-    if ns:
-        P["betas_mean"] = pop["betas"]
-    st = {"leaspy_version": "2.0.0-dev", "name": kind, "features": pop["features"], "dimension": d,
-          "obs_models": {"y": "gaussian-diagonal" if d > 1 else "gaussian-scalar"}, "parameters": P, "source_dimension": ns}
+    obs = case.get("obs_model")
+    st = settings_of_pop(pop, obs)
     hist = case.get("history")
+    variant = case.get("variant")
+    lines, pending = [], []
+
+    def dressed(co):
+        co.ips, co.ages = case["ips"], case["ages"]
+        co.ip_style, co.age_container = dict(case.get("ip_style") or {}), dict(case.get("age_container") or {})
+        return co
+
+    ix = case.get("ix")
+    kw = dict(ix_override=[tuple(x) for x in ix] if ix else None, scalar=bool(case.get("scalar_id")), layout=case.get("layout"),
+              variant=variant)
+    if hist and hist.get("kind") == "after-fit":
+        fit_history(env, chk, chk.rng, lines, pending, recipe=hist, ips=case["ips"], ages=case["ages"], styles=case, kw=kw)
+        compare(chk, lines, pending)
+        return
+    if hist and hist.get("kind") in ("deepcopy", "save-load"):
+        co = build_cohort(env, chk, chk.rng, settings=st)
+        if co is None:
+            return
+        try:
+            with core.quiet():
+                m2 = transformed_model(env, co.model, hist["kind"])
+        except Exception as e:  # noqa
+            chk.impl_failure(case, f"{hist['kind']} of a loaded model raised {err_class(e, env)}: {e}")
+            return
+        co2 = build_cohort(env, chk, chk.rng, settings=st, model=m2)
+        if co2 is None:
+            return
+        co2.tag = "random+" + hist["kind"]
+        process(chk, dressed(co2), chk.rng, lines, pending, **kw)
+        compare(chk, lines, pending)
+        return
     if hist:
         # same object, used once with its first parameters, then parameters replaced in place
         fp = hist["first_pop"]
-        case1 = {"pop": fp, "ips": hist["first_ips"], "ages": hist["first_ages"], "tag": "random"}
-        P1 = {"tau_mean": [70.0], "tau_std": [5.0], "xi_std": [0.5], "noise_std": [0.1] * d if d > 1 else 0.1}
-        if kind == "logistic":
-            P1["log_g_mean"], P1["log_v0_mean"] = fp["log_g"], fp["log_v0"]
-        elif kind == "linear":
-            P1["g_mean"], P1["log_v0_mean"] = fp["g"], fp["log_v0"]
-        else:
-            P1["log_g_mean"], P1["deltas_mean"], P1["xi_mean"] = [fp["log_g"]], fp["deltas"], [0.0]
-        if ns:
-            P1["betas_mean"] = fp["betas"]
-        co = build_cohort(env, chk, chk.rng, settings=dict(st, parameters=P1))
+        co = build_cohort(env, chk, chk.rng, settings=settings_of_pop(fp, obs))
         if co is None:
             return
-        co.ips, co.ages = case1["ips"], case1["ages"]
-        lines, pending = [], []
+        co.ips, co.ages, co.ip_style, co.age_container = hist["first_ips"], hist["first_ages"], {}, {}
         process(chk, co, chk.rng, lines, pending)
         try:
             with core.quiet():
@@ -767,9 +1343,10 @@ def replay(chk: core.Check, payload):
             chk.impl_failure(case, f"replacing the parameters in place raised {err_class(e, env)}: {e}")
             return
         co.pop = pop_of_model(fresh)
+        co.settings = dict(st, parameters=hist["new_parameters"])
+        check_pop(chk, co, hist["new_parameters"], "the parameters loaded in place")
         co.tag = "random+parameters-replaced-in-place"
-        co.ips, co.ages = case["ips"], case["ages"]
-        process(chk, co, chk.rng, lines, pending)
+        process(chk, dressed(co), chk.rng, lines, pending, **kw)
         compare(chk, lines, pending)
         return
     if case.get("tag", "random") != "random" and not str(case.get("tag")).startswith("random"):
@@ -778,9 +1355,5 @@ def replay(chk: core.Check, payload):
         co = build_cohort(env, chk, chk.rng, settings=st)
     if co is None:
         return
-    co.ips, co.ages = case["ips"], case["ages"]
-    lines, pending = [], []
-    ix = case.get("ix")
-    process(chk, co, chk.rng, lines, pending, ix_override=[tuple(x) for x in ix] if ix else None, scalar=bool(case.get("scalar_id")),
-            layout=case.get("layout"))
+    process(chk, dressed(co), chk.rng, lines, pending, **kw)
     compare(chk, lines, pending)
